@@ -60,7 +60,7 @@ func (r *ruleImpl) Execute(ctx heimdall.Context) (rule.Backend, error) {
 		// unescape path
 		request.URL.RawPath = ""
 	case config.EncodedSlashesOff:
-		if strings.Contains(request.URL.RawPath, "%2F") {
+		if containsEncodedSlash(request.URL.RawPath) {
 			return nil, errorchain.NewWithMessage(heimdall.ErrArgument,
 				"path contains encoded slash, which is not allowed")
 		}
@@ -160,7 +160,17 @@ func unescape(value string, handling config.EncodedSlashesHandling) string {
 		return unescaped
 	}
 
-	unescaped, _ := url.PathUnescape(strings.ReplaceAll(value, "%2F", "$$$escaped-slash$$$"))
+	// an encoded slash can be spelled using upper and lower case hex digits
+	value = strings.ReplaceAll(value, "%2F", "$$$escaped-slash$$$")
+	value = strings.ReplaceAll(value, "%2f", "$$$escaped-slash-lc$$$")
 
-	return strings.ReplaceAll(unescaped, "$$$escaped-slash$$$", "%2F")
+	unescaped, _ := url.PathUnescape(value)
+
+	unescaped = strings.ReplaceAll(unescaped, "$$$escaped-slash$$$", "%2F")
+
+	return strings.ReplaceAll(unescaped, "$$$escaped-slash-lc$$$", "%2f")
+}
+
+func containsEncodedSlash(value string) bool {
+	return strings.Contains(value, "%2F") || strings.Contains(value, "%2f")
 }
